@@ -294,6 +294,11 @@ fn run_case(kind: &str, bytes: &[u8], m128: bool, fault: Fault, chunk: usize) ->
         cfg.sound = true;
         cfg.ay = true;
         let mut emu = cfg.build();
+        // half of the cases find the machine in the middle of a frame, the beam inside a picture line (a host loads
+        // files at breakpoint stops too)
+        if bytes.len() % 2 == 1 || bytes.iter().take(40).fold(0u32, |a, b| a.wrapping_mul(31).wrapping_add(*b as u32)) % 2 == 1 {
+            emu.verif_wait(14336 + 100 * 224 + 77);
+        }
         let r: Result<(), String> = match kind {
             "sna" => emu.load_snapshot(Snapshot::Sna(mk(bytes))).map_err(|e| format!("{e:?}")),
             "szx" => emu.load_snapshot(Snapshot::Szx(mk(bytes))).map_err(|e| format!("{e:?}")),
